@@ -30,9 +30,27 @@ def case_bucket(cls, it, r, g):
             return "-"
         return "nomatch" if i == 0 else shapes[i - 1]
     typed = it["meta"]["typed"] or "object"
+    if g[0] == "crash":
+        return "%s|subject:%s|hazard=%s" % (cls, typed, ",".join(it["meta"].get("hazards", [])) or "-")
+    if g[0] == "exc" and r[0] != "exc":
+        return "%s|subject:%s|ref=%s|got=%s:%s" % (cls, typed, sh(a), g[1], exc_text(g))
     if r[0] == "exc":
         return "%s|subject:%s|ref=%s|got=%s" % (cls, typed, r[1], sh(b) if g[0] == "ok" else g[1] if g[0] == "exc" else g[0])
     return "%s|subject:%s|ref=%s|got=%s" % (cls, typed, sh(a), sh(b) if g[0] == "ok" else (g[1] if len(g) > 1 else g[0]))
+
+
+def exc_text(o):
+    """normalised message of an exception outcome (class names -> C, digits -> N, quoted names -> '_')"""
+    import re
+    try:
+        msg = o[2][1][0][1]
+    except Exception:
+        return "?"
+    msg = msg.strip("'\"")
+    msg = re.sub(r"\b[A-Za-z_][A-Za-z_0-9]*\(\)", "C()", msg)
+    msg = re.sub(r"\d+", "N", msg)
+    msg = re.sub(r"\\?'[^']*\\?'", "'_'", msg)
+    return msg[:70]
 
 
 def subject_class(sx):
